@@ -201,6 +201,13 @@ func (indexer *Indexer) AddFkConstraint(symbol EntitySymbol, nullable bool, casc
 }
 
 func (indexer *Indexer) AddConstraint(constraint Constraint) {
+	if _, ok := constraint.(*systemEntityConstraint); ok {
+		// the system entity check only decides whether an update or delete may go ahead. It has to come before the
+		// index maintenance and the cascades, wherever it is registered: when it refuses, nothing must have been
+		// touched yet (a caller may note the error and still commit the rest of its transaction)
+		indexer.constraints = append([]Constraint{constraint}, indexer.constraints...)
+		return
+	}
 	indexer.constraints = append(indexer.constraints, constraint)
 }
 
